@@ -8,6 +8,7 @@ import FordModel.MdState
 import FordModel.DocConvert
 import FordModel.Basic.Split
 import FordModel.Dispatch.C02
+import FordModel.IncludeMarks
 namespace Ford
 open Proto
 
@@ -86,6 +87,35 @@ def dispatchC03 : List Str → Option (List Str)
             (entDocsW (v.contains 'w') (v.contains 'o') Gen.entityFields (v.contains 'm') (attachW d items)).flatMap
               (fun e => ("E:".toList ++ e.1) :: (metaOut e.2.1 ++ linesOut e.2.2)))
         | .error e => some ["err".toList, rerrName e]
+      | _ => some ["bad-request".toList]
+    else if cmd == "c03.attachfs".toList then
+      -- c03.attachfs <flags> <doc> <pre> <alt> <preAlt> <nfiles> (<name> <nlines> <line>*)* <line of the main file>*
+      -- the entities of a source file that pulls text in with `include`: reader with include expansion (the
+      -- nested readers get the markers `Gen.includeMarkSrc` says), then the attach model
+      match args with
+      | v :: d :: p :: a :: pa :: nf :: rest =>
+        match parseFiles (natOf nf) rest with
+        | none => some ["bad-request".toList]
+        | some (fs, main) =>
+          match IncMarks.readFSM Gen.includeMarkSrc Include.readerCfg fs (fs.length + 2)
+                  { doc := d, pre := p, alt := a, preAlt := pa } main with
+          | .ok items =>
+            some ("ok".toList ::
+              (entDocsW (v.contains 'w') (v.contains 'o') Gen.entityFields (v.contains 'm') (attachW d items)).flatMap
+                (fun e => ("E:".toList ++ e.1) :: (metaOut e.2.1 ++ linesOut e.2.2)))
+          | .error e => some ["err".toList, ierrName e]
+      | _ => some ["bad-request".toList]
+    else if cmd == "c03.readfs".toList then
+      -- c03.readfs <doc> <pre> <alt> <preAlt> <nfiles> (<name> <nlines> <line>*)* <line of the main file>*
+      match args with
+      | d :: p :: a :: pa :: nf :: rest =>
+        match parseFiles (natOf nf) rest with
+        | none => some ["bad-request".toList]
+        | some (fs, main) =>
+          match IncMarks.readFSM Gen.includeMarkSrc Include.readerCfg fs (fs.length + 2)
+                  { doc := d, pre := p, alt := a, preAlt := pa } main with
+          | .ok items => some ("ok".toList :: items)
+          | .error e => some ["err".toList, ierrName e]
       | _ => some ["bad-request".toList]
     else if cmd == "c03.mdstate".toList then
       match args with
